@@ -1307,6 +1307,269 @@ def run_loop_witness(ctx, mode):
                       'error, all employees are shut down, and client 1 never gets the result of its finished compilation')
 
 
+# --------------------------------------------------------------------------
+# the REAL ServerBase.send_outgoing loop, in a thread
+# --------------------------------------------------------------------------
+class WireConn:
+    """behaves like multiprocessing.connection.Connection for the sender: send() on a connection this process
+    closed raises OSError('handle is closed'); when the peer is gone it raises ConnectionResetError / EOFError"""
+
+    def __init__(self, name, idx):
+        self.name, self.idx, self.closed, self.peer_gone = name, idx, False, False
+        self.got = []                  # what was actually written
+        self.attempts_when_closed = 0
+        self.on_send = None
+
+    def send(self, m):
+        if self.closed:
+            self.attempts_when_closed += 1
+            raise OSError('handle is closed')
+        if self.peer_gone:
+            raise (ConnectionResetError if self.idx % 2 else EOFError)('peer is gone')
+        self.got.append(m)
+        if self.on_send is not None:
+            self.on_send()
+
+    def close(self):
+        self.closed = True
+
+    def __repr__(self):
+        return f'<{self.name}>'
+
+
+class HeldQueue(queue.Queue):
+    """self.outgoing of the server under test.  Messages put by the main thread while a handler runs are released
+    to the sender only when the handler has returned (so `queued, then connection closed in the same handler` is
+    deterministic); messages put by the sender thread itself (handle_disconnect -> broadcast) go straight in."""
+
+    def __init__(self):
+        super().__init__()
+        self.hold, self.pending, self.log = False, [], []
+        self.main = None
+
+    def put(self, item, block=True, timeout=None):
+        import threading
+        if isinstance(item, tuple) and len(item) == 3 and not getattr(item[0], 'is_sync', False):
+            self.log.append(item)
+        if self.hold and threading.current_thread() is self.main:
+            self.pending.append(item)
+        else:
+            super().put(item, block, timeout)
+
+    def release(self):
+        for it in self.pending:
+            super().put(it)
+        self.pending = []
+
+
+class SenderRig:
+    """an Impl whose outgoing queue is consumed by the real send_outgoing in its own thread"""
+
+    def __init__(self):
+        import threading
+        self.im = Impl()
+        s = self.im.s
+        self.im.conns = {}
+        self.im.conn = self.conn
+        for e in s.employees:           # employees get wire connections too
+            w = WireConn(e.conn.name, e.conn.idx)
+            del s.conn_to_employee_dict[e.conn]
+            e.conn = w
+            s.conn_to_employee_dict[w] = e
+        self.im.wconns = [e.conn for e in s.employees]
+        self.q = HeldQueue()
+        self.q.main = threading.current_thread()
+        s.outgoing = self.q
+        self.sync_conn = WireConn('sync', 999)
+        self.sync_conn.is_sync = True
+        self.sync_ev = threading.Event()
+        self.sync_conn.on_send = self.sync_ev.set
+        self.died = []
+        self.th = threading.Thread(target=self._body, daemon=True)
+        self.th.start()
+
+    def _body(self):
+        try:
+            self.im.s.send_outgoing()
+        except BaseException as e:  # noqa: the thread would die with this exception
+            self.died.append(f'{type(e).__name__}: {e}')
+
+    def conn(self, c):
+        if c not in self.im.conns:
+            self.im.conns[c] = WireConn(f'client{c}', c)
+        return self.im.conns[c]
+
+    def sync(self, timeout=3.0):
+        """wait until the sender has consumed everything queued so far; False if it cannot (thread dead)"""
+        from bqskit.runtime.message import RuntimeMessage as M
+        import time
+        self.sync_ev.clear()
+        queue.Queue.put(self.q, (self.sync_conn, M.LOG, None))
+        t0 = time.time()
+        while time.time() - t0 < timeout:
+            if self.sync_ev.wait(0.01):
+                return True
+            if not self.th.is_alive():
+                return False
+        return False
+
+    def apply(self, ev):
+        self.q.hold = True
+        try:
+            s = self.im.s
+            k = ev[0]
+            self.im.apply(ev) if k != 'gone' else None
+            if k == 'gone':
+                self.conn(ev[1]).peer_gone = True
+        finally:
+            self.q.hold = False
+            self.q.release()
+        return self.sync()
+
+    def stop(self):
+        s = self.im.s
+        s.running = False
+        queue.Queue.put(self.q, b'\0')
+        self.th.join(1.0)
+
+
+def drain_noop(self):
+    return []
+
+
+def sender_history(ctx, hist, tag):
+    """run a request history with the real sender thread.  Oracle: (a) what a connection received is the in-order
+    subsequence of what was queued for it, (b) no write is attempted on a closed connection, (c) a connection that is
+    open at the end received everything queued for it, (d) the thread is alive and a new client is still answered."""
+    from bqskit.runtime.message import RuntimeMessage as M
+    rig = SenderRig()
+    rig.im.drain = lambda: []          # the sender consumes the queue; Impl must not
+    ok_sync = True
+    used = []
+    for ev in hist:
+        used.append(ev)
+        if ev[0] != 'gone' and not rig.im.up:
+            break
+        if not rig.apply(ev):
+            ok_sync = False
+            break
+    # (d) a fresh client must still be served
+    probe_answered = False
+    if rig.im.up:
+        pc = 90
+        for ev in ([K_CONNECT, pc], [K_SUBMIT, pc, 900], [K_STATUS, pc, 900]):
+            rig.apply(ev)
+        probe_answered = any(m == M.STATUS for m, _ in rig.conn(pc).got)
+        sched = [m for w in rig.im.wconns for m, _ in w.got if m == M.SUBMIT_BATCH]
+    alive = rig.th.is_alive() and not rig.died
+    problems = []
+    if not alive:
+        problems.append(f'sender thread dead: {rig.died}')
+    if rig.im.up and not probe_answered:
+        problems.append('a new client is not answered any more')
+    per = {}
+    for c, m, p in rig.q.log:
+        per.setdefault(c, []).append((m, p))
+    for c, puts in per.items():
+        got = list(c.got)
+        if c.attempts_when_closed:
+            problems.append(f'{c.attempts_when_closed} write(s) attempted on closed connection {c.name}')
+        it = iter(puts)
+        if not all(any(g[0] == q[0] and g[1] is q[1] for q in it) for g in got):
+            problems.append(f'{c.name}: received messages are not an in-order subsequence of the queued ones')
+        if not c.closed and not c.peer_gone and len(got) != len(puts):
+            problems.append(f'{c.name} is open but received {len(got)} of {len(puts)} queued messages')
+    rig.stop()
+    key = ('sender', tag, tuple(map(tuple, hist)))
+    ctx.case(key, nontrivial=any(c.closed or c.peer_gone for c in per))
+    ctx.count('sender_histories')
+    if any(c.closed and per.get(c) for c in per):
+        ctx.count('sender_histories_with_message_for_closed_conn')
+    if problems:
+        ctx.violation({'call': 'ServerBase.send_outgoing', 'symptom': 'sender-thread-dead' if not alive else 'message-lost-or-misdelivered'},
+                      dict(kind='sender', history=used, tag=tag), 'sender alive; every message for an open connection written in order; none to a closed one; later clients answered',
+                      dict(problems=problems[:6]),
+                      'real ServerBase.send_outgoing thread: ' + '; '.join(problems[:3]))
+        return False
+    return True
+
+
+def gen_sender_history(rng):
+    """a request history + peer-gone marks; events of a client whose peer is gone are dropped"""
+    h = gen_history(rng, rng.randint(6, 24))
+    out, gone = [], set()
+    for ev in h:
+        if ev[0] in (K_SUBMIT, K_REQUEST, K_STATUS, K_CANCEL, K_DISCONNECT, K_CONNECT) and ev[1] in gone:
+            continue
+        out.append(ev)
+        if ev[0] == K_SUBMIT and rng.random() < 0.12:
+            out.append(['gone', ev[1]])
+            gone.add(ev[1])
+    return out
+
+
+def gen_sender_queue(rng):
+    n = rng.randint(2, 5)
+    states = [rng.choice([0, 0, 1, 2]) for _ in range(n)]
+    msgs = [[rng.randrange(n), rng.randint(0, 9)] for _ in range(rng.randint(1, 14))]
+    return states, msgs
+
+
+def sender_queue_cases(ctx, cases):
+    """pure queue: connections in given states (0 open, 1 closed by the server, 2 peer gone), a list of messages;
+    the real send_outgoing thread is compared with the extracted model send_all (coq/rt/ServerSend.v)"""
+    from bqskit.runtime.message import RuntimeMessage as M
+    obs, lines = [], []
+    for states, msgs in cases:
+        n = len(states)
+        rig = SenderRig()
+        s = rig.im.s
+        for c, stt in enumerate(states):
+            w = rig.conn(c)
+            s.clients[w] = set()
+            if stt == 1:
+                s.handle_disconnect(w)          # closed by the server
+            elif stt == 2:
+                w.peer_gone = True
+        rig.q.hold = True
+        for c, m in msgs:
+            s.outgoing.put((rig.conn(c), M.LOG, m))
+        rig.q.hold = False
+        rig.q.release()
+        synced = rig.sync()
+        alive = rig.th.is_alive() and not rig.died
+        per = {c: [p for _, p in rig.conn(c).got] for c in range(n)}
+        dropped = sorted(c for c in range(n) if states[c] == 2 and rig.conn(c).closed)
+        rig.stop()
+        obs.append((int(alive and synced), per, dropped, rig.died))
+        lines.append(f"sender 1 [{' '.join(map(str, states))}] {fmt_hist(msgs)}")
+    outs = vf.run_model('server', lines) if lines else []
+    nok = 0
+    for (states, msgs), (alive, per, dropped, died), ln in zip(cases, obs, outs):
+        mv = parse_v(ln)
+        n = len(states)
+        m_alive, m_sent, m_dropped = mv[0], mv[1], sorted(mv[2])
+        m_per = {c: [m for cc, m in m_sent if cc == c] for c in range(n)}
+        ctx.case(('senderq', tuple(states), tuple(map(tuple, msgs))), nontrivial=any(states))
+        ctx.count('sender_queue_cases')
+        if (alive, per, dropped) != (m_alive, m_per, m_dropped):
+            ctx.violation({'call': 'ServerBase.send_outgoing', 'symptom': 'sender-thread-dead' if not alive else 'model-mismatch'},
+                          dict(kind='sender-queue', states=states, msgs=msgs), dict(alive=m_alive, sent=m_per, disconnected=m_dropped),
+                          dict(alive=alive, sent=per, disconnected=dropped, died=died),
+                          f'real send_outgoing vs model send_all (connection states {states}: 0 open, 1 closed by the server, 2 peer gone)',
+                          kind='correspondence' if alive else 'input', corr='coq/rt/ServerSend.v vs bqskit/runtime/base.py send_outgoing')
+        else:
+            nok += 1
+    return nok
+
+
+SENDER_CORPUS = {
+    'unknown-task-then-close': [[0, 0], [0, 1], [2, 1, 1], [3, 0, 7], [6, 0, 4], [3, 1, 1], [4, 1, 1]],
+    'log-queued-for-leaving-client': [[0, 0], [0, 1], [2, 0, 0], [2, 1, 1], [8, 0, 1], [1, 0], [7, 0, 2], [6, 1, 3], [3, 1, 1]],
+    'peer-gone-with-result-queued': [[0, 0], [0, 1], [2, 0, 0], [2, 1, 1], [3, 0, 0], ['gone', 0], [6, 0, 2], [6, 1, 5], [3, 1, 1]],
+}
+
+
 def detect_mode(ctx):
     """which model does the implementation correspond to?  The witnesses are compared with all three; ties go to
     the most repaired variant.  Also selects the matching variant of the specification (Spec.dc)."""
@@ -1416,6 +1679,17 @@ def run(ctx: vf.Ctx):
     run_batch(ctx, ex, mode, 'exhaustive')
     ctx.cov['d4_avoiding_histories_clean'] = clean_safe
 
+    # the real sender thread
+    import logging as _lg
+    _lg.getLogger('bqskit').setLevel(_lg.CRITICAL)
+    t_s = __import__('time').time()
+    ok_s = sum(sender_history(ctx, h, 'corpus') for h in SENDER_CORPUS.values())
+    ok_s += sum(sender_history(ctx, gen_sender_history(rng), 'random') for _ in range(ctx.n(150, 1500)))
+    ok_q = sender_queue_cases(ctx, [([1, 0], [[0, 4], [1, 9]])] + [gen_sender_queue(rng) for _ in range(ctx.n(80, 800))])
+    ctx.cov['sender_histories_ok'] = ok_s
+    ctx.cov['sender_queue_cases_ok'] = ok_q
+    ctx.cov['t_sender_s'] = round(__import__('time').time() - t_s, 1)
+
     # real Compiler objects + real Workers / Managers, in process
     import logging
     import warnings
@@ -1448,6 +1722,10 @@ def replay(ctx: vf.Ctx, data):
             client_scenario(ctx, case['seed_index'], avoid_d4=case.get('avoid_d4', False))
     elif kind == 'run-loop':
         run_loop_witness(ctx, mode)
+    elif kind == 'sender':
+        sender_history(ctx, case['history'], 'replay')
+    elif kind == 'sender-queue':
+        sender_queue_cases(ctx, [(case['states'], case['msgs'])])
     elif case.get('history'):
         run_batch(ctx, [case['history']], mode, 'replay')
     else:
